@@ -23,12 +23,13 @@ def on_seg(a, b, p):
 
 class C09(Prop):
     id = 'C09'
+    coq_targets = ['Props/C09.vo', 'Float/FloatExact.vo']   # the exactness of the float cross product on the grid (supporting lemma)
     stages = ('S1', 'S25', 'S6')
     rule = 'runs of length 1..400 of every run character in its direction at offsets (quick: all lengths 1..64 plus a sample up to 400), and random grids over the full alphabet with all pairs of plain line elements examined; non-trivial when the output has at least one line element'
     level_text = ('Theorems C09_no_two_mergeable_lines (at the fixpoint of the merge loop no line can merge with a later one, for every span), C09_can_merge_means_collinear_and_touching, '
                   'C09_run_of_any_length_is_one_line (a chain of n >= 1 collinear touching unit segments in any of the four directions merges to the one line from first to last point, for every n, by induction), C09_dashed_if_any_part_dashed. '
                   'The passage from run characters to unit segments (tables) and lines of different spans are decided by correspondence and oracle.')
-    level_note = 'partial: whole-drawing statement (tables -> unit segments, cross-span lines) by correspondence plus oracle; exact integer geometry in the model, f32 in the code'
+    level_note = 'float cross product: exact on the grid below 512 columns / 512 rows by Float/FloatExact.v (Flocq; standard real-number axioms); partial: whole-drawing statement (tables -> unit segments, cross-span lines) by correspondence plus oracle; exact integer geometry in the model, f32 in the code'
     def make(self, gen, text, meta=None):
         return Item(gen, {'main': Run(text, '', 'settings')}, dict(meta or {}, text=text), lambda t: self.make(gen, t))
     def items(self, rng, tier):
